@@ -225,3 +225,135 @@ func init() {
 		return ""
 	}
 }
+
+// c15HistoryRun evaluates the calls in the order given by each schedule and
+// checks that every evaluation of call i has the same outcome as its first.
+func c15HistoryRun(calls []run.Call, schedules [][]int, loose, multi []bool) string {
+	first := make([]*run.Outcome, len(calls))
+	step := 0
+	for si, sch := range schedules {
+		for _, i := range sch {
+			step++
+			var o run.Outcome
+			if (si+i)%2 == 0 {
+				o = run.Search(calls[i].Expr, calls[i].Doc.Build())
+			} else if e, co := run.Compile(calls[i].Expr); e == nil {
+				o = co
+			} else {
+				o = run.ExprSearch(e, calls[i].Doc.Build())
+			}
+			if o.Panic != "" {
+				return "panic: " + o.Panic
+			}
+			if first[i] == nil {
+				first[i] = &o
+				continue
+			}
+			if msg := run.SameOutcomeMF(*first[i], o, loose[i], multi[i]); msg != "" {
+				return fmt.Sprintf("step %d: expression %d (%s) evaluated after other expressions differs from its first evaluation: %s", step, i, truncate(calls[i].Expr, 120), msg)
+			}
+		}
+	}
+	return ""
+}
+
+// C15 (history): what was evaluated before -- other expressions, failing
+// ones in particular -- does not influence the outcome of an evaluation.
+func TestC15_History(t *testing.T) {
+	c := collector("C15", "history")
+	rapid.Check(t, func(t *rapid.T) {
+		n := rapid.IntRange(2, 5).Draw(t, "nexpr")
+		calls := make([]run.Call, n)
+		loose := make([]bool, n)
+		multi := make([]bool, n)
+		fails, lets := 0, 0
+		key := ""
+		for i := range calls {
+			var e ast.Expr
+			var doc jv.Val
+			switch rapid.IntRange(0, 3).Draw(t, "kind") {
+			case 0:
+				doc = gen.Doc(t, gen.DocCfg{MaxDepth: 3, MaxFan: 3})
+				g := &gen.G{T: t, Root: doc, Cfg: fullCfg()}
+				e = g.Expr(doc, 0)
+			default:
+				doc = c19Doc(t)
+				lg := &letGen{t: t, doc: doc}
+				e = lg.let(0)
+				if rapid.IntRange(0, 3).Draw(t, "failing") == 0 {
+					// a let whose body fails at run time after its bindings were made
+					e = &ast.Let{Names: []string{gen.Pick(t, "fname", []string{"x", "y", "z", "q"})}, Vals: []ast.Expr{ast.Lit(jv.VStr("stale"))},
+						Body: &ast.Chain{Head: ast.Head{Kind: ast.HMultiList, Items: []ast.Expr{e, ast.Call("abs", ast.A(ast.RawS("s")))}}}}
+				}
+			}
+			if model.Static(e).RefAtValue && kfOpen("expref-at-value-position") {
+				c.Case()
+				c.Exclude("expref-at-value-position")
+				return
+			}
+			res, _ := model.Eval(e, doc)
+			loose[i] = enumeratesMembers(e)
+			if loose[i] && res.Undet != "" {
+				c.Case()
+				c.Skip(res.Undet)
+				return
+			}
+			multi[i] = res.Undet != "" || res.Err.Count() > 1
+			if res.Err != 0 {
+				fails++
+			}
+			if len(collectLets(e)) > 0 {
+				lets++
+			}
+			node := run.FromVal(doc)
+			calls[i] = run.Call{API: "search", Expr: ast.Render(e), Doc: &node}
+			key += calls[i].Expr + "\x00" + doc.JSON() + "\x00"
+		}
+		nsch := rapid.IntRange(2, 4).Draw(t, "nschedules")
+		schedules := make([][]int, nsch)
+		for i := range schedules {
+			schedules[i] = rapid.Permutation(seq(n)).Draw(t, "schedule")
+		}
+		c.Case()
+		run.Watch(c, "history", calls...)
+		if msg := c15HistoryRun(calls, schedules, loose, multi); msg != "" {
+			c.Fail(t, run.Replay{Check: "history", Kind: "custom:c15-history", Calls: calls, Message: msg,
+				Extra: mustJSON(map[string]any{"schedules": schedules, "loose": loose, "multi_fault": multi})}, "history")
+			return
+		}
+		c.Label("ok")
+		if fails > 0 && lets > 1 {
+			c.NonTrivial(key, func() any {
+				texts := make([]string, n)
+				for i := range calls {
+					texts[i] = truncate(calls[i].Expr, 160)
+				}
+				return map[string]any{"expressions": texts, "schedules": schedules, "failing_expressions": fails}
+			})
+		}
+	})
+}
+
+func init() {
+	customReplays["custom:c15-history"] = func(r run.Replay) string {
+		var ex struct {
+			Schedules [][]int `json:"schedules"`
+			Loose     []bool  `json:"loose"`
+			Multi     []bool  `json:"multi_fault"`
+		}
+		if err := jsonUnmarshal(r.Extra, &ex); err != nil || len(ex.Loose) != len(r.Calls) || len(ex.Multi) != len(r.Calls) {
+			return "malformed replay"
+		}
+		for _, c := range r.Calls {
+			if c.Doc == nil {
+				return "malformed replay"
+			}
+		}
+		for i := 0; i < 5; i++ {
+			if msg := c15HistoryRun(r.Calls, ex.Schedules, ex.Loose, ex.Multi); msg != "" {
+				return msg
+			}
+		}
+		return ""
+	}
+}
